@@ -105,6 +105,9 @@ func (rd *realDecoder) getArrayLength() (int, error) {
 		return -1, ErrInsufficientData
 	} else if tmp > 2*math.MaxUint16 {
 		return -1, errInvalidArrayLength
+	} else if tmp < -1 {
+		// -1 is the null array, anything below is garbage
+		return -1, errInvalidArrayLength
 	}
 	return tmp, nil
 }
